@@ -91,6 +91,29 @@ _dispatch_verif_queue_state_addr(dispatch_queue_t dq)
 	return &dq->dq_state;
 }
 
+// addresses of the words a block object's cancel / wait / notify protocol lives in, and its private group
+DV_EXPORT bool
+_dispatch_verif_block_peek(dispatch_block_t db, volatile void **atomic_flags,
+		volatile void **performed, void **group)
+{
+	dispatch_block_private_data_t dbpd = _dispatch_block_get_data(db);
+	if (!dbpd) return false;
+	*atomic_flags = &dbpd->dbpd_atomic_flags;
+	*performed = &dbpd->dbpd_performed;
+	*group = dbpd->dbpd_group;
+	return true;
+}
+
+// addresses of the internal and external reference counts of an object
+DV_EXPORT void
+_dispatch_verif_object_ref_addrs(void *obj, volatile void **ref,
+		volatile void **xref)
+{
+	struct _os_object_s *o = obj;
+	*ref = &o->os_obj_ref_cnt;
+	*xref = &o->os_obj_xref_cnt;
+}
+
 enum {
 	DV_DQ_DRAIN_TRY_LOCK = 1,      // arg = invoke flags; ret = owned
 	DV_DQ_TRY_ACQUIRE_BARRIER_SYNC,// arg = tid; ret = bool
